@@ -19,7 +19,7 @@ SPEC = dict(
                  'inside onAccepted/onConnected the new client is disposed of by returning a null callback (optionally after remove()), never by remove() plus a non-null callback',
                  'a peer that closes while its client is suspended without backlog is not generated (the loop then spins on EPOLLHUP; no statement of C14 is violated by that)',
                  'loopback TCP delivery is asynchronous: the harness waits (bounded, real time) until its own poll() sees in-flight traffic before judging the loop; exceeding the bound is inconclusive, never a violation',
-                 'threaded job: "run() returns after interrupt()" is awaited for 60 s real time; exceeding it is reported as inconclusive (the deterministic no-wakeup check is in the virtual-time job)'],
+                 'threaded job: "run() returns after interrupt()" is awaited for 30 s real time; exceeding it is reported as inconclusive (the deterministic no-wakeup check is in the virtual-time job)'],
     technique='libc interposition (virtual clock, scripted epoll_wait/send/recv), alive-flag tombstones, independent poll() oracle, TSan',
     exhaustive={Q: False, T: False},
     jobs=[
